@@ -2,7 +2,7 @@
 /* C07.update_base_username: username := input (already percent-encoded by the caller); the "@" appears/disappears with the credentials */
 void harness(void) {
   EDITOR_PROLOGUE
-  sv_t input; input.n = nondet_size(); MAKE_SV(input);
+  ND_SV(input);
   __CPROVER_assume(IN_CLASS(input, ':', '@', '/', '?', '#'));
   __CPROVER_assume(v0.has_authority && v0.host.n > 0);   /* set_username refuses when cannot_have_credentials_or_port() */
   __CPROVER_assume(u.buffer.n + input.n + 1 <= STR_CAP);
